@@ -34,7 +34,9 @@ CHECKS = {
         dict(prop="REG", harness="api_pbt", quick=dict(count=0, workers=1), thorough=dict(count=0, workers=1)),  # regression scenarios
         dict(prop="C07", harness="api_pbt", quick=dict(count=6000, workers=8), thorough=dict(count=200000, workers=16),
              essential=_ALL_SCHEMAS + ["depth>=3", "move-non-last-sibling", "remove-with-subtree", "cycle-attempt", "name:invalid",
-                                       "rename-above-grandchildren", "move-into-empty-parent", "duplicate-name-rejected"]),
+                                       "rename-above-grandchildren", "move-into-empty-parent", "duplicate-name-rejected",
+                                       "move:older-under-newer", "prelude:inverted-ages", "1.x:cycle-attempt:onto-older-descendant",
+                                       "2.x:cycle-attempt:onto-older-descendant"]),
         # bounded-exhaustive: every sequence of 2 (quick) / 3 (thorough) operations from a 42-letter alphabet over <= 4 crates, 3 schemas
         dict(prop="C07.enum2", harness="api_pbt", quick=dict(count="enum", workers=8), thorough=dict(count=0, workers=1)),
         dict(prop="C07.enum3", harness="api_pbt", quick=dict(count=0, workers=1), thorough=dict(count="enum", workers=16))]),
@@ -61,7 +63,7 @@ CHECKS = {
         dict(prop="REG", harness="api_pbt", quick=dict(count=0, workers=1), thorough=dict(count=0, workers=1)),  # regression scenarios
         dict(prop="C11", harness="api_pbt", quick=dict(count=1600, workers=8), thorough=dict(count=50000, workers=16),
              essential=_ALL_SCHEMAS + ["set_relative_path", "remove-with-subtree", "move-non-last-sibling", "remove-member-track",
-                                       "track-with-performance-data"])]),
+                                       "track-with-performance-data", "set_relative_path:no-extension"])]),
     "C12": dict(level="exploration", exhaustive=True,
                 exhaustive_scope="the 18 schemas x {on-disk, temporary} are enumerated completely against all 62 reference dumps; the normaliser property is sampled",
                 parts=[
@@ -192,7 +194,9 @@ RULES = {
            "successful setters on one track hit the same storage (same blob / row / metadata table) or >=2 tracks were modified.",
     "C07": "Case = schema + up to 15 crate operations (create root/sub crate [after a sibling], set_name, set_parent to any crate incl. self/"
            "descendants/none, remove_crate), names from a 4-letter pool (to collide), fresh, unicode, quoted and invalid (empty, with ';'); "
-           "entities are named by index modulo the live crates so every subsequence is valid. Forest model + validity predicates after every "
+           "entities are named by index modulo the live crates so every subsequence is valid; half of the cases start from a deep forest whose "
+           "oldest root is, one time in three, moved under the newest root, and re-parenting is biased towards crates with descendants, legal "
+           "older-under-newer moves and cycle attempts onto a descendant that is older (smaller id) than the crate moved. Forest model + validity predicates after every "
            "step: crates() = live set; parent() = model; children(c) = {d: parent(d)=c}; descendants = closure; root_crates = parentless; "
            "crate_by_id finds exactly live ids (probed with removed and never-issued ids); crates_by_name / root_crate_by_name / "
            "sub_crate_by_name agree with the model; ids stable and new ids distinct from live ids (2.x: from every id ever issued); removed "
